@@ -16,7 +16,7 @@ import (
 
 func init() {
 	PropertyText["C05"] = [2]string{
-		"Decides: in preprocess every item that is not rejected in its loop iteration has passed NormalizeURL and every include/exclude predicate, evaluated on that very item, and the rejecting sides really reject (R-SCOPE-GATE); a request object is only built in preprocess, after the gate loop, for items that stayed Fresh (R-REQUEST-ONLY-AFTER-GATE, R-DELETE-ADVANCE); NormalizeURL accepts only http/https, non-loopback, dotted hosts on every success path, through helpers if any (R-URL-SHAPE); the only HTTP egress in the pipeline is the archiver's client.Do on the item's prepared request, and the WARC client never follows redirects itself (R-HTTP-EGRESS, R-NO-AUTO-REDIRECT); archive.org and archive-it.org are always appended to the excluded hosts (R-DEFAULT-EXCLUDES); all items pass the preprocessor before the archiver (R-WIRE). Every --exclusion-file contributes its compiled regexes (R-EXCLUSION-FILES).",
+		"Decides: in preprocess every item that is not rejected in its loop iteration has passed NormalizeURL and every include/exclude predicate, evaluated on that very item, and the rejecting sides really reject (R-SCOPE-GATE); a request object is only built in preprocess, after the gate loop, for items that stayed Fresh (R-REQUEST-ONLY-AFTER-GATE, R-DELETE-ADVANCE); NormalizeURL accepts only http/https, non-loopback, dotted hosts on every success path, through helpers if any (R-URL-SHAPE); the only HTTP egress in the pipeline is the archiver's client.Do on the item's prepared request, and the WARC client never follows redirects itself (R-HTTP-EGRESS, R-NO-AUTO-REDIRECT); archive.org and archive-it.org are always appended to the excluded hosts (R-DEFAULT-EXCLUDES); all items pass the preprocessor before the archiver (R-WIRE). Every --exclusion-file contributes its compiled regexes (R-EXCLUSION-FILES). URL.String, which memoises, is not evaluated on a URL before NormalizeURL ran on it (R-STRING-AFTER-NORMALIZE); URL.Parse always re-derives the parsed form from Raw (R-PARSE-REFRESHES); the exclusion-file readers do not drop a last line that comes back together with io.EOF (R-CONFIG-READ-CONSUME).",
 		"Not decided: that strings.Contains/regex semantics equal the operator's intent for every URL text; URL-parser differentials between net/url, ada and the HTTP stack (which host a crafted URL really connects to).",
 	}
 	register(&core.Rule{ID: "R-SCOPE-GATE", Props: []string{"C05"}, Doc: "preprocess gate loop: every path through an iteration that does not reject the item (RemoveChild+continue / SetStatus(Failed|Completed)+return) has taken the nil-error side of NormalizeURL(item), the pass side of the include test (when configured) and the false side of the exclude-host, exclude-string and regex predicates, all on that item; the other sides reach only rejections", Run: ruleScopeGate})
